@@ -28,10 +28,10 @@ def _modules(case):
                                   DWTInverse)
     with dwtu.default_dtype(dwtu.tdt(case['dtype'])):
         if case['dim'] == 1:
-            return (DWT1DForward(J=case['J'], wave=case['wave'], mode=case['mode']),
-                    DWT1DInverse(wave=case['wave'], mode=case['mode']))
-        return (DWTForward(J=case['J'], wave=case['wave'], mode=case['mode']),
-                DWTInverse(wave=case['wave'], mode=case['mode']))
+            return (DWT1DForward(J=case['J'], wave=c01.wave_arg(case), mode=case['mode']),
+                    DWT1DInverse(wave=c01.wave_arg(case, 'rec'), mode=case['mode']))
+        return (DWTForward(J=case['J'], wave=c01.wave_arg(case), mode=case['mode']),
+                DWTInverse(wave=c01.wave_arg(case, 'rec'), mode=case['mode']))
 
 
 def run_case(case):
